@@ -179,6 +179,41 @@ def handle (line : String) : String := Id.run do
     let pM := if q.numRadix = q.radix then parseLineW q.radix else parseLineD q.numRadix q.numRadix q.radix
     let (grpsM, _) := groupLinesW pM q.lst
     let codeM := grpsM.filter (fun g => !g.first.units.isEmpty)
+    -- `WriteBytes` over the whole emission history (`c`, `h` store bytes; a reservation, a jump or another segment ends
+    -- the record: `NewRecord` flushes): which of its three ways each statement takes, what the record receives, and the
+    -- line buffer `MakeList` finds afterwards
+    let mut store : Store := ⟨[], []⟩
+    let mut mems : Array (Option (List UInt8)) := #[]
+    let mut way0 := 0
+    let mut way1 := 0
+    let mut way2 := 0
+    let mut next : Option (Nat × Nat) := none
+    let mut storeBad : Array Nat := #[]
+    let mut ei := 0
+    for e in q.evs do
+      if e.kind = "c" ∨ e.kind = "h" then
+        let fetched := match tabOf e.seg with
+          | some (tg, tlg) => (fetchW cm e.seg tg e.load e.n).map (fun b => (tg, tlg, b))
+          | none => none
+        match fetched with
+        | some (tg, tlg, bytes) =>
+          if next ≠ some (e.seg, e.load) then store := flushStore store
+          let code0 := fileBytes tw tlg bytes
+          if code0.length ≠ 0 then
+            if store.buf.length + code0.length < codeBufferSize then way0 := way0 + 1
+            else if code0.length < codeBufferSize then way1 := way1 + 1
+            else way2 := way2 + 1
+          let before := store.disk.length + store.buf.length
+          let r := writeBytesLine tw tlg store code0
+          store := r.1
+          if (store.disk ++ store.buf).drop before ≠ bytes then storeBad := storeBad.push ei
+          if e.kind = "c" then mems := mems.push (some r.2)
+          next := some (e.seg, e.load + e.n / tg)
+        | none =>
+          if e.kind = "c" then mems := mems.push none
+          next := none
+      else next := none
+      ei := ei + 1
     let mut corrBad : Array Nat := #[]
     let mut sample := ""
     let mut combos : Array String := #[]
@@ -187,10 +222,9 @@ def handle (line : String) : String := Id.run do
       | some g, some e =>
         match tabOf e.seg with
         | some (tg, tlg) =>
-          match fetchW cm e.seg tg e.load e.n with
-          | some bytes =>
-            -- the buffer MakeList saw: WriteBytes' swap is an involution
-            let mem := fileBytes tw tlg bytes
+          match mems[k]? with
+          | some (some mem) =>
+            -- `mem`: the buffer `WriteBytes` (model) left for `MakeList`
             let i : ListInW := { incDepth := e.depth, currLine := e.line, listPC := e.load + e.phase,
                                  widthRadix := q.radix, numRadix := q.numRadix, gran := tg, listGran := tlg,
                                  turnWords := tw, code := mem, src := [] }
@@ -203,7 +237,7 @@ def handle (line : String) : String := Id.run do
             if !ok then
               corrBad := corrBad.push k
               if sample = "" then sample := hexOfChars (ml.headD [])
-          | none => corrBad := corrBad.push k
+          | _ => corrBad := corrBad.push k
         | none => corrBad := corrBad.push k
       | _, _ => corrBad := corrBad.push k
     -- MAP
@@ -227,7 +261,7 @@ def handle (line : String) : String := Id.run do
     let realSeq := mf.lines.map (fun ml => ((segNo ml.seg).getD 99, ml.addr, ml.line))
     let corrMap := modelSeq == realSeq
     let symS := symChecks q mf
-    return s!"pfile=ok row={if row.isSome then "ok" else "missing"} lines={q.lst.size} other={other} groups={grps.size} code_groups={code.size} events={cevs.size} listed={listed} hidden={hidden} total={total} multi={multi} mixed={mixed} u1={u1} u2={u2} u4={u4} combos={if combos.isEmpty then "-" else ",".intercalate combos.toList} spec_list={showIdx specBad} diag16={showIdx diagBad} complete={if complete then "ok" else "fail"} corr_list={showIdx corrBad} map_entries={mf.lines.length} map_bad_lines={mf.bad} spec_map={showIdx mapBad} map_all={showIdx mapMiss} corr_map={if corrMap then "ok" else "ne"} {symS}" ++
+    return s!"pfile=ok row={if row.isSome then "ok" else "missing"} lines={q.lst.size} other={other} groups={grps.size} code_groups={code.size} events={cevs.size} listed={listed} hidden={hidden} total={total} multi={multi} mixed={mixed} u1={u1} u2={u2} u4={u4} combos={if combos.isEmpty then "-" else ",".intercalate combos.toList} spec_list={showIdx specBad} diag16={showIdx diagBad} complete={if complete then "ok" else "fail"} corr_list={showIdx corrBad} corr_store={showIdx storeBad} ways={way0},{way1},{way2} map_entries={mf.lines.length} map_bad_lines={mf.bad} spec_map={showIdx mapBad} map_all={showIdx mapMiss} corr_map={if corrMap then "ok" else "ne"} {symS}" ++
       (if sample = "" then "" else s!" model_line={sample}")
 
 end Driver.C19W
